@@ -41,6 +41,14 @@ def run : List ι → List Op → List (Out ι) × List ι
     let (xs, l'') := run l' os
     (x :: xs, l'')
 
+/-- consume from either end along a word (`true` = `next`, `false` = `next_back`): the items yielded, in order, and what is left -/
+def ends : List ι → List Bool → List ι × List ι
+  | l, [] => ([], l)
+  | l, b :: w =>
+    let (x, l') := if b then next l else nextBack l
+    let (ys, l'') := ends l' w
+    (x.toList ++ ys, l'')
+
 def Op.small : Op → Prop
   | .nth n | .nthBack n => n < 18446744073709551616
   | _ => True
